@@ -1,9 +1,11 @@
 use crate::ctx::Shard;
 
+pub mod c04;
 pub mod c12;
 
 pub fn dispatch(engine: &str, sh: &mut Shard) -> bool {
     match engine {
+        "c04" => c04::run(sh),
         "c12" => c12::run(sh),
         _ => return false,
     }
